@@ -46,6 +46,15 @@ func genLitK(t *rapid.T, rsize int, maxKind int) string {
 		v = 100
 	}
 	kind := rapid.IntRange(0, maxKind).Draw(t, "litk")
+	if rapid.IntRange(0, 15).Draw(t, "litboundary") == 0 && rsize >= 2 && rsize <= 64 {
+		// the largest values of the register size, written as plain decimals or hex
+		top := ^uint64(0) >> uint(64-rsize)
+		b := []uint64{top, top >> 1, (top >> 1) + 1}[rapid.IntRange(0, 2).Draw(t, "litb")]
+		if rapid.Bool().Draw(t, "litbhex") {
+			return fmt.Sprintf("0x%x", b)
+		}
+		return fmt.Sprintf("%d", b)
+	}
 	switch kind {
 	case 0, 1:
 		return fmt.Sprintf("%d", v)
@@ -551,7 +560,7 @@ func genFragmentsPart(t *rapid.T, b *strings.Builder, rsize int, macros []string
 // genBasmSource draws one source text and the assembler flags.
 func genBasmSource(t *rapid.T) (string, []string) {
 	var b strings.Builder
-	rsize := rapid.SampledFrom([]int{8, 16, 32}).Draw(t, "rsize")
+	rsize := rapid.SampledFrom([]int{8, 16, 32, 8, 16, 32, 64}).Draw(t, "rsize")
 	fmt.Fprintf(&b, "%%meta bmdef global registersize:%d\n", rsize)
 	giomode := rapid.SampledFrom([]string{"", "sync", "async"}).Draw(t, "giomode")
 	if giomode != "" {
